@@ -103,6 +103,11 @@ func stamp() string {
 			return nil
 		})
 	}
+	for _, extra := range []string{SubjectInventoryFile(), UserRulesFile(), UserCommentRulesFile(), filepath.Join(VerifRoot(), "corpus", "synth", "index.json")} {
+		if b, err := os.ReadFile(extra); err == nil {
+			h.Write(b)
+		}
+	}
 	h.Write([]byte(common.RepoDir))
 	return hex.EncodeToString(h.Sum(nil))[:16]
 }
@@ -116,13 +121,20 @@ func CacheDir(tier string, seed int64) string {
 func Get(tier string, seed int64) (*Shared, string) {
 	dir := CacheDir(tier, seed)
 	common.Must(os.MkdirAll(dir, 0o755))
-	lock, err := os.OpenFile(filepath.Join(dir, ".lock"), os.O_CREATE|os.O_RDWR, 0o644)
-	common.Must(err)
-	defer lock.Close()
-	flock(lock)
-	defer funlock(lock)
+	child := os.Getenv("VERIF_CRASH_CHILD") != ""
+	if !child {
+		lock, err := os.OpenFile(filepath.Join(dir, ".lock"), os.O_CREATE|os.O_RDWR, 0o644)
+		common.Must(err)
+		defer lock.Close()
+		flock(lock)
+		defer funlock(lock)
+	}
 	st := stamp()
-	if os.Getenv("VERIF_NOCACHE") == "" {
+	if key := os.Getenv("VERIF_CRASH_PROBE"); child && key != "" {
+		computeProbe(tier, seed, key)
+		return &Shared{}, dir
+	}
+	if os.Getenv("VERIF_NOCACHE") == "" && !child {
 		if data, err := os.ReadFile(filepath.Join(dir, "shared.json")); err == nil {
 			var s Shared
 			if json.Unmarshal(data, &s) == nil && s.Stamp == st && s.Tier == tier && s.Seed == seed {
@@ -134,7 +146,13 @@ func Get(tier string, seed int64) (*Shared, string) {
 	for _, p := range old {
 		os.Remove(p)
 	}
-	s := compute(tier, seed, dir)
+	var s *Shared
+	if !child {
+		s = isolatedCompute(tier, seed, dir, st)
+	}
+	if s == nil {
+		s = compute(tier, seed, dir)
+	}
 	s.Stamp = st
 	data, err := json.MarshalIndent(s, "", " ")
 	common.Must(err)
@@ -169,11 +187,16 @@ func RunAll(pkgs []*Pkg, variants []Variant, each func(fr fileResult)) {
 	var wg sync.WaitGroup
 	for w := 0; w < workers; w++ {
 		wg.Add(1)
-		go func() {
+		go func(w int) {
 			defer wg.Done()
+			mk := newMarker(w)
+			defer mk.clear()
 			r := NewRunner(variants)
 			for p := range jobs {
 				r.SetPkg(p)
+				if p.Fresh || strings.HasPrefix(p.Name, "S2/pkglevel") {
+					r.Refresh()
+				}
 				for _, f := range p.Files {
 					if p.Focus != "" && f.Name != p.Focus {
 						continue
@@ -184,6 +207,11 @@ func RunAll(pkgs []*Pkg, variants []Variant, each func(fr fileResult)) {
 							fr.outcomes[i] = Outcome{Skipped: true}
 							continue
 						}
+						if isExcluded(p, f, variants[i]) {
+							fr.outcomes[i] = Outcome{Skipped: true}
+							continue
+						}
+						mk.set(p, f, variants[i])
 						fr.outcomes[i] = r.CheckFile(i, f)
 						if fr.outcomes[i].Timeout {
 							r.SetPkg(p)
@@ -194,7 +222,7 @@ func RunAll(pkgs []*Pkg, variants []Variant, each func(fr fileResult)) {
 					mu.Unlock()
 				}
 			}
-		}()
+		}(w)
 	}
 	for _, p := range pkgs {
 		jobs <- p
@@ -209,6 +237,22 @@ type c01Hit struct {
 	variant Variant
 	vi      int
 	out     Outcome
+}
+
+// computeProbe (child process): regenerate the inputs and execute the single Check call named by key.
+func computeProbe(tier string, seed int64, key string) {
+	variants := Variants(Infos())
+	s1, _, err := LoadS1()
+	if err != nil {
+		panic(err)
+	}
+	s2, _, _ := LoadS2()
+	stats := map[string]int{}
+	s3 := Mutants(s1, tier, seed, stats)
+	sy, _ := LoadSynth()
+	s4 := Systematic(append(append([]*Pkg{}, s1...), sy...), tier, seed, stats)
+	all := append(append(append(append(append([]*Pkg{}, s1...), s2...), s3...), sy...), s4...)
+	runProbe(all, variants, key)
 }
 
 func compute(tier string, seed int64, dir string) *Shared {
